@@ -1,4 +1,4 @@
 def run(ctx):
-    from . import kernel_proofs
+    from . import kernel_proofs, validate_proofs
 
-    return kernel_proofs.run(ctx, ["prepare", "grouped_sum_size", "grouped_max_nosize", "nanmax", "nanmin"], "C01")
+    return kernel_proofs.run(ctx, ["prepare", "grouped_sum_size", "grouped_max_nosize", "nanmax", "nanmin"], "C01") + " " + validate_proofs.run(ctx, "C01", which=("engine",))
